@@ -7,13 +7,13 @@ R=/tmp/seedverify-$id-$$
 /verif/tools/mk_scratch.sh "$R" >/dev/null || exit 3
 trap 'git -C /repo worktree remove --force "$R" >/dev/null 2>&1; rm -rf "$R"' EXIT INT TERM
 out="$d/verified.txt"; : > "$out"
-( cd "$d/demo" && sh ./run.sh "$R" ) > "$d/demo_without.log" 2>&1; rc0=$?
+( cd "$d/demo" && bash ./run.sh "$R" ) > "$d/demo_without.log" 2>&1; rc0=$?
 echo "demo without patch: exit $rc0" >> "$out"
 git -C "$R" apply "$d/patch.diff" || { echo "patch does not apply" >> "$out"; cat "$out"; exit 3; }
 ( cd "$R" && make -k -j8 check ) > "$d/make_check_with_patch.log" 2>&1; rcm=$?
 pass=$(grep -c '^PASS:' "$d/make_check_with_patch.log"); fail=$(grep -c '^FAIL:\|^ERROR:' "$d/make_check_with_patch.log")
 echo "make -k check with patch: exit $rcm PASS lines $pass FAIL/ERROR lines $fail" >> "$out"
-( cd "$d/demo" && sh ./run.sh "$R" ) > "$d/demo_with.log" 2>&1; rc1=$?
+( cd "$d/demo" && bash ./run.sh "$R" ) > "$d/demo_with.log" 2>&1; rc1=$?
 echo "demo with patch: exit $rc1" >> "$out"
 if [ $rc0 -eq 0 ] && [ $rc1 -ne 0 ] && [ $rcm -eq 0 ] && [ "$fail" = "0" ]; then echo "VERIFIED" >> "$out"; else echo "NOT-VERIFIED" >> "$out"; fi
 gzip -f "$d/make_check_with_patch.log"
